@@ -29,6 +29,7 @@ E == [G |-> MkG(P0), start |-> <<Conf.lex.start>>,
                           "lazy" \in DOMAIN Conf.lex /\ i \in {Conf.lex.lazy[j] : j \in DOMAIN Conf.lex.lazy})],
       skip |-> IF "skip" \in DOMAIN Conf.lex THEN Conf.lex.skip ELSE NoSkip,
       tok |-> Conf.tok, eos |-> Conf.eos, order |-> Conf.order, alpha |-> {Conf.alpha[i] : i \in DOMAIN Conf.alpha},
+      canon |-> Conf.canon = 1, maxlen |-> Conf.maxlen,
       sw |-> [clearOnRollback |-> Conf.sw.clearOnRollback = 1, keyRow |-> Conf.sw.keyRow = 1,
               keyPending |-> Conf.sw.keyPending = 1, resetLastForce |-> Conf.sw.resetLastForce = 1,
               vendMax |-> Conf.sw.vendMax = 1]]
@@ -54,7 +55,8 @@ RMask == IF s.mode = "ok" THEN RefMask(E, s.toks) ELSE {}
 Next ==
     /\ depth < Conf.depth
     /\ depth' = depth + 1
-    /\ \/ Do(Mask(E, s), "mask", 0)
+    /\ \/ Do(Mask(E, s, Fuel), "mask", 0)
+       \/ Do(FFTokens(E, s, Fuel), "fft", 0)
        \/ Do(IsAccepting(E, s), "acc", 0)
        \/ Do(Force(E, s, Fuel), "ffb", 0)
        \/ (s.cache # <<>> /\ Do(Invalidate(E, s), "inval", 0))
@@ -77,7 +79,17 @@ Refines ==
         stopped == obs[6] # "none"
     IN
     CASE op = "mask" -> IF stopped THEN res = <<"err">>
-                        ELSE IF RefMask(E, ts) = {} THEN res = <<"err">> ELSE res = <<"mask", RefMask(E, ts)>>
+                        ELSE IF RefMask(E, ts) = {} THEN res = <<"err">>
+                        ELSE IF E.canon /\ res # <<"mask", RefMask(E, ts)>>
+                        THEN (* narrowed to the first fast-forward token: allowed, and spelling forced text (C13) *)
+                             /\ res[1] = "mask" /\ Cardinality(res[2]) = 1
+                             /\ \A t \in res[2] : t \in RefMask(E, ts) /\ IsPrefixOf(E.tok[t + 1], RefForced(E, ts, Fuel))
+                        ELSE res = <<"mask", RefMask(E, ts)>>
+      [] op = "fft" -> IF stopped THEN res = <<"fft", <<>> >>
+                       ELSE /\ res[1] = "fft"
+                            /\ (~E.canon => res[2] = <<>>)
+                            /\ IsPrefixOf(BytesOfToks(E, res[2]), RefForced(E, ts, Fuel))
+                            /\ \A i \in DOMAIN res[2] : res[2][i] \in RefMask(E, ts \o SubSeq(res[2], 1, i - 1))
       [] op = "acc" -> res = <<"acc", IF stopped THEN TRUE ELSE RefAcc(E, ts)>>
       [] op = "ffb" -> res = <<"ff", IF stopped THEN <<>> ELSE RefForced(E, ts, Fuel)>>
       [] op = "consume" -> (res = <<"ok">>) = (~stopped /\ arg \in RefMask(E, ts))
